@@ -60,21 +60,27 @@ def fint(x):
     return repr(x)
 
 
-def make_signal(samples, ratios):
+LABELS = {"0..n-1": (0, 1), "1..n": (1, 1), "100..": (100, 1), "0,10,20..": (0, 10)}
+
+
+def make_signal(samples, ratios, labels="0..n-1"):
     """samples: list of ints (load of the first node), ratios: list of node factors (first = 1).
-    Returns what the detector is fed: a numpy array for one node, a MultiIndex Series otherwise."""
+    Returns what the detector is fed: a numpy array for one node, a MultiIndex Series otherwise
+    (`labels` chooses the load_step labels: they are labels, not positions)."""
     if len(ratios) == 1:
         return np.asarray(samples, dtype=float)
-    mi = pd.MultiIndex.from_product([range(len(samples)), range(len(ratios))], names=["load_step", "node_id"])
+    start, step = LABELS[labels]
+    steps = [start + step * i for i in range(len(samples))]
+    mi = pd.MultiIndex.from_product([steps, range(len(ratios))], names=["load_step", "node_id"])
     return pd.Series([float(s * r) for s in samples for r in ratios], index=mi)
 
 
-def run_detector(samples, ratios, law):
+def run_detector(samples, ratios, law, labels="0..n-1"):
     from pylife.stress.rainflow.fkm_nonlinear import FKMNonlinearDetector
     from pylife.stress.rainflow.recorders import FKMNonlinearRecorder
     rec = FKMNonlinearRecorder()
     det = FKMNonlinearDetector(recorder=rec, notch_approximation_law=law)
-    sig = make_signal(samples, ratios)
+    sig = make_signal(samples, ratios, labels)
     det.process_hcm_first(sig).process_hcm_second(sig)
     return det, rec
 
